@@ -143,7 +143,7 @@ pub fn run_case(case: &Case) -> Outcome {
     let sharing = case.sharing;
     let probe_keys: Vec<Vec<u64>> = case.threads.iter().map(|ops| {
         let mut keys: Vec<u64> = ops.iter().filter_map(|o| match o {
-            Op::Resolve(i) | Op::Get(_, i) | Op::StreamData(i) | Op::RawImage(i) | Op::ImageData(i) | Op::FormOps(i) => Some(*i),
+            Op::Resolve(i) | Op::Get(_, i) | Op::StreamData(i) | Op::RawImage(i) | Op::ImageData(i) | Op::FormOps(i) | Op::ImageStreamData(i) => Some(*i),
             _ => None,
         }).filter(|k| case.probe_ok.contains(k)).collect();
         keys.sort();
@@ -378,6 +378,16 @@ impl C13 {
                 focus.push(c);
             }
         }
+        // in a deep page tree the interesting keys are the deepest ones (a cold typed load of a deep
+        // leaf nests one load per ancestor): bias the focus set towards the highest-numbered page nodes
+        if doc.family == "deep_tree" && rng.coin() {
+            let mut pages: Vec<(u64, ObjKind)> = objs.iter().cloned().filter(|(_, k)| *k == ObjKind::Pages).collect();
+            pages.sort();
+            let top: Vec<(u64, ObjKind)> = pages.iter().rev().take(4).cloned().collect();
+            if !top.is_empty() {
+                focus = (0..2 + rng.usize(2)).map(|_| *rng.pick(&top)).collect();
+            }
+        }
         let n_pages = doc.inv.n_pages.max(1);
         let focus_page = rng.below(n_pages as u64) as u32;
         let mut threads = vec![];
@@ -434,7 +444,7 @@ impl C13 {
         if sharing != Sharing::PerCall {
             for t in threads.iter_mut() {
                 let mut keys: Vec<u64> = t.iter().filter_map(|o| match o {
-                    Op::Resolve(i) | Op::Get(_, i) | Op::StreamData(i) | Op::RawImage(i) | Op::ImageData(i) | Op::FormOps(i) => Some(*i),
+                    Op::Resolve(i) | Op::Get(_, i) | Op::StreamData(i) | Op::RawImage(i) | Op::ImageData(i) | Op::FormOps(i) | Op::ImageStreamData(i) => Some(*i),
                     _ => None,
                 }).collect();
                 keys.sort();
@@ -448,7 +458,7 @@ impl C13 {
         }
         let mut probe_ok = vec![];
         for op in threads.iter().flatten() {
-            if let Op::Resolve(i) | Op::Get(_, i) | Op::StreamData(i) | Op::RawImage(i) | Op::ImageData(i) | Op::FormOps(i) = op {
+            if let Op::Resolve(i) | Op::Get(_, i) | Op::StreamData(i) | Op::RawImage(i) | Op::ImageData(i) | Op::FormOps(i) | Op::ImageStreamData(i) = op {
                 if !probe_ok.contains(i) && self.alone_answer(&doc, tolerant, &Op::Resolve(*i)).ok {
                     probe_ok.push(*i);
                 }
